@@ -119,6 +119,12 @@ class Info:
                 return (fpath, fm['ctype'], bc)
         return None
 
+    def length_field_of(self, leaf):
+        """is this scalar leaf the length/count field of some container (spec/length_fields.json)?"""
+        for e in self.spec_len['classes'].get(leaf['owner'], []):
+            if e['field'] == leaf['name']: return True
+        return False
+
     def deps(self, cn, seen=None):
         """generated .c files needed for class cn (transitively over called functions)"""
         seen = seen if seen is not None else set()
